@@ -26,12 +26,30 @@ import (
 	"verifharness/lib/obs"
 )
 
+// Fields is the abstract value: a JSON object, or [] for a message without fields.
+type Fields map[string]json.RawMessage
+
+func (f *Fields) UnmarshalJSON(b []byte) error {
+	if bytes.Equal(bytes.TrimSpace(b), []byte("[]")) {
+		*f = Fields{}
+		return nil
+	}
+	var m map[string]json.RawMessage
+	if err := json.Unmarshal(b, &m); err != nil {
+		return err
+	}
+	*f = m
+	return nil
+}
+
 type Case struct {
-	T     string                     `json:"t"`
-	V     map[string]json.RawMessage `json:"v"`
-	Bytes []int                      `json:"bytes"`
-	PF    bool                       `json:"pf"`
-	Kind  string                     `json:"kind,omitempty"`
+	T     string `json:"t"`
+	V     Fields `json:"v"`
+	Bytes []int  `json:"bytes"`
+	PF    bool   `json:"pf"`
+	Kind  string `json:"kind,omitempty"`
+	// Base: the base value of the type (for naming the culprit fields of a finding)
+	Base Fields `json:"base,omitempty"`
 }
 
 func toBytes(a []int) []byte {
@@ -347,8 +365,32 @@ func checkCase(c *Case) (fs []finding, real []byte, err error) {
 			}
 		}
 	}
-	// (c) the bytes the specification demands are read back as v
-	if !bytes.Equal(real, spec) {
+	// (b') for the same types the ACCEPTED strings must be prefix-free too: a valid encoding followed by
+	// extra bytes (handshake length adjusted) must not be accepted, or the valid encoding would be an
+	// accepted strict prefix of an accepted string
+	if c.PF && ok {
+		for _, extra := range []int{1, 4} {
+			ext := append(append([]byte(nil), real...), make([]byte, extra)...)
+			if !isSessionState(c.T) && len(ext) >= 4 {
+				l := len(ext) - 4
+				ext[1], ext[2], ext[3] = byte(l>>16), byte(l>>8), byte(l)
+			}
+			m5 := fresh(c)
+			acc := false
+			o = obs.Guard(120*time.Second, func() { acc = m5.Unmarshal(ext) })
+			if o.Panic != "" {
+				fs = append(fs, finding{"trailing-panic", "", fmt.Sprintf("%s.unmarshal panicked on a valid encoding followed by %d bytes: %s", c.T, extra, o.Panic)})
+				break
+			}
+			if acc {
+				fs = append(fs, finding{"trailing", "", fmt.Sprintf("%s.unmarshal accepts a valid %d-byte encoding and also the same bytes followed by %d more: the accepted encodings are not prefix-free", c.T, len(real), extra)})
+				break
+			}
+		}
+	}
+	// (c) the bytes the specification demands are read back as v (the session states are internal
+	// formats: their layout is not demanded, only observed)
+	if c.Bytes != nil && !isSessionState(c.T) && !bytes.Equal(real, spec) {
 		m4 := fresh(c)
 		o = obs.Guard(120*time.Second, func() { ok = m4.Unmarshal(append([]byte(nil), spec...)) })
 		if o.Panic != "" {
@@ -362,8 +404,53 @@ func checkCase(c *Case) (fs []finding, real []byte, err error) {
 	return fs, real, nil
 }
 
+func isSessionState(t string) bool { return t == "sessionState" || t == "sessionStateTLS13" }
+
 func sigOf(c *Case, f finding) map[string]any {
-	return map[string]any{"t": c.T, "kind": f.kind, "field": f.field}
+	sig := map[string]any{"t": c.T, "kind": f.kind, "field": f.field}
+	if f.field == "" && c.Base != nil {
+		sig["culprit"] = culprit(c, f.kind)
+	}
+	return sig
+}
+
+func hasKind(fs []finding, kind string) bool {
+	for _, f := range fs {
+		if f.kind == kind {
+			return true
+		}
+	}
+	return false
+}
+
+// culprit names a minimal set of fields that must differ from the type's base value for the
+// finding of the given kind to persist (greedy: each non-base field is reset to the base value
+// if the finding survives).  It only makes the signature of a finding specific; the verdict is
+// always about the original, valid value.
+func culprit(c *Case, kind string) string {
+	cur := Fields{}
+	for k, v := range c.V {
+		cur[k] = v
+	}
+	var names []string
+	for k := range cur {
+		if !bytes.Equal(cur[k], c.Base[k]) {
+			names = append(names, k)
+		}
+	}
+	sort.Strings(names)
+	var keep []string
+	for _, k := range names {
+		saved := cur[k]
+		cur[k] = c.Base[k]
+		t := &Case{T: c.T, V: cur, Bytes: nil, PF: c.PF}
+		fs, _, err := checkCase(t)
+		if err != nil || !hasKind(fs, kind) {
+			cur[k] = saved
+			keep = append(keep, k)
+		}
+	}
+	return strings.Join(keep, ",")
 }
 
 func intsOf(b []byte) []int {
@@ -390,12 +477,32 @@ func main() {
 		perType := map[string]int{}
 		pfTypes := map[string]bool{}
 		seen := map[string]bool{}
+		cnt := map[string]int{}
 		for _, path := range os.Args[3:] {
+			var cases []Case
 			err := obs.ReadLines(path, func(line []byte) error {
 				var c Case
 				if err := json.Unmarshal(line, &c); err != nil {
 					return err
 				}
+				cases = append(cases, c)
+				return nil
+			})
+			if err != nil {
+				obs.Fatal("%v", err)
+			}
+			// the base value of each type = the value with the shortest encoding
+			base := map[string]Fields{}
+			blen := map[string]int{}
+			for i := range cases {
+				if l, ok := blen[cases[i].T]; !ok || len(cases[i].Bytes) < l {
+					blen[cases[i].T] = len(cases[i].Bytes)
+					base[cases[i].T] = cases[i].V
+				}
+			}
+			for i := range cases {
+				c := cases[i]
+				c.Base = base[c.T]
 				n++
 				perType[c.T]++
 				if c.PF {
@@ -406,7 +513,7 @@ func main() {
 				}
 				fs, real, err := checkCase(&c)
 				if err != nil {
-					return fmt.Errorf("case %d (%s): %v", n, c.T, err)
+					obs.Fatal("case %d (%s): %v", n, c.T, err)
 				}
 				if c.PF {
 					prefixes += len(real)
@@ -416,6 +523,17 @@ func main() {
 					w.Write(map[string]any{"t": c.T, "v": c.V, "bytes": intsOf(real), "spec": c.Bytes, "pf": c.PF})
 				}
 				for _, f := range fs {
+					// cheap pre-signature: do not minimise the same kind of finding over and over
+					pre := fmt.Sprintf("%s/%s/%s", c.T, f.kind, f.field)
+					if f.field != "" {
+						if seen[pre] {
+							continue
+						}
+						seen[pre] = true
+					} else if cnt[pre] >= 200 {
+						continue
+					}
+					cnt[pre]++
 					sig := sigOf(&c, f)
 					k, _ := json.Marshal(sig)
 					if !seen[string(k)] {
@@ -425,10 +543,6 @@ func main() {
 						obs.Emit(obs.Candidate{Sig: sig, What: f.what, Case: cc})
 					}
 				}
-				return nil
-			})
-			if err != nil {
-				obs.Fatal("%v", err)
 			}
 		}
 		w.Close()
